@@ -44,7 +44,15 @@ func (c *evalCtx) h(s *Sx) tv {
 		}
 		return undet
 	}
-	return c.def(c.defs[s.List[1].Int()])
+	j := s.List[1].Int()
+	switch c.defs[j].Head() {
+	case "apply", "apply2", "func", "unitf", "func0":
+		// a task-completed future is its own source: once its task has run, its result is what it is
+		if c.w.defs[j].IsCompleted() {
+			return det(c.w.defs[j].Value())
+		}
+	}
+	return c.def(c.defs[j])
 }
 
 func bind(a tv, k func(v any) tv) tv {
@@ -95,6 +103,9 @@ func seqAll(xs []tv) tv {
 
 func (c *evalCtx) def(s *Sx) tv {
 	a := s.List
+	if t, ok := c.famDef(s); ok {
+		return t
+	}
 	switch s.Head() {
 	case "successful":
 		return det(fp.Success[any](a[1].Int()))
@@ -225,7 +236,7 @@ func (c *evalCtx) usesApply(s *Sx) bool {
 		return false
 	}
 	switch s.Head() {
-	case "apply", "apply2":
+	case "apply", "apply2", "func", "unitf", "func0":
 		return true
 	case "d":
 		return c.usesApply(c.defs[s.List[1].Int()])
@@ -249,22 +260,29 @@ func sameTry(a, b fp.Try[any]) bool {
 	if a.IsSuccess() {
 		return Show(a.Get()) == Show(b.Get())
 	}
-	return true // failures: Apply's panic error carries a stack; compare success/failure only there
+	// failures: Apply's panic error carries a stack; compare success/failure only there, but user errors exactly
+	// (WHICH failure wins is the left-to-right short-circuit)
+	ea, oka := a.Failed().Get().(CodeErr)
+	eb, okb := b.Failed().Get().(CodeErr)
+	if oka && okb {
+		return ea == eb
+	}
+	return true
 }
 
 func directCase(op *Sx, sink *Sink) {
 	failed := false
 	obsSeen := map[string]int{}
+	dh = &dHook{sink: sink, op: op, failed: &failed, calls: map[string]int{}, supRec: map[int]int{}}
+	defer func() { dh = nil }()
 	res := Outcome(func() string {
 		return runScenario(op, func(w *world, stmts []*Sx, upto int, quiescent bool) {
 			if failed {
 				return
 			}
-			c := &evalCtx{w: w}
-			for _, st := range stmts[:upto+1] {
-				if st.Head() == "def" {
-					c.defs = append(c.defs, st.List[1])
-				}
+			c := &evalCtx{w: w, defs: w.defSx}
+			if quiescent {
+				w.supplierLiveness()
 			}
 			for i, d := range w.defs {
 				directChecks++
@@ -310,5 +328,5 @@ func directCase(op *Sx, sink *Sink) {
 
 // defPendingOnlyOnTasks: the definition is a bare Apply/Apply2 (its completion needs nothing but its own task).
 func (c *evalCtx) defPendingOnlyOnTasks(s *Sx) bool {
-	return s.Head() == "apply" || s.Head() == "apply2"
+	return s.Head() == "apply" || s.Head() == "apply2" || s.Head() == "func" || s.Head() == "func0"
 }
